@@ -86,6 +86,9 @@ func NewSchema(config SchemaConfig) (Schema, error) {
 	}
 	// Ensure directive definitions are error-free
 	for _, dir := range schema.directives {
+		if err = invariant(dir != nil, "Schema directives must be Directive but got: nil."); err != nil {
+			return schema, err
+		}
 		if dir.err != nil {
 			return schema, dir.err
 		}
@@ -201,6 +204,9 @@ func (gq *Schema) AddImplementation() error {
 //Edited. To check add Types at RunTime..
 //Append Runtime schema to typeMap
 func (gq *Schema) AppendType(objectType Type) error {
+	if isNilType(objectType) {
+		return nil
+	}
 	if objectType.Error() != nil {
 		return objectType.Error()
 	}
